@@ -36,8 +36,8 @@ Print Assumptions C15_example.
    of them re-opens this property even if no sampled case shows a difference.  Rewritten by tools/pin_shapes.py on a tree on which every check passes. *)
 From Connectome Require GlueFilterGen.
 Theorem C15_mirrored_functions_are_the_pinned_ones :
-  GlueFilterGen.shape_class_Filter = "e202343ff78dfd1d" /\
-  GlueFilterGen.shape_class_CheckIds = "a921031238182021".
+  GlueFilterGen.shape_class_Filter = "e202343ff78dfd1d"%string /\
+  GlueFilterGen.shape_class_CheckIds = "a921031238182021"%string.
 Proof. repeat split; reflexivity. Qed.
 Print Assumptions C15_mirrored_functions_are_the_pinned_ones.
 (* END PINNED FINGERPRINTS *)
